@@ -255,7 +255,10 @@ package aml
 //@   ensures r == InvalidIndex || live(tree, r)
 //@   loop 1 (segIndex < exprLen) invariant 0 <= segIndex && live(tree, scopeIndex) && exprLen == len(expr)
 //@   loop 2 (segIndex < exprLen &&) invariant 0 <= segIndex && live(tree, scopeIndex) && exprLen == len(expr)
+//@   loop 2 ghost s0 = segIndex
+//@   loop 2 invariant skipped: s0 <= segIndex && forall(k, int, s0 <= k && k < segIndex ==> expr[k] != 95 && (expr[k] < 65 || expr[k] > 90))
 //@   loop 3 (nextIndex != InvalidIndex) invariant (nextIndex == InvalidIndex || live(tree, nextIndex)) && live(tree, scopeIndex) && 0 <= segIndex && exprLen - segIndex >= 4 && segIndex < exprLen && exprLen == len(expr)
+//@   loop 3 invariant lead: expr[segIndex] == 95 || (expr[segIndex] >= 65 && expr[segIndex] <= 90)
 //@   loop 4 (byteIndex < amlNameLen) invariant 0 <= byteIndex && byteIndex <= 4 && live(tree, nextIndex) && obj == ob(tree, nextIndex) && 0 <= segIndex && exprLen - segIndex >= 4 && segIndex < exprLen && exprLen == len(expr) && live(tree, scopeIndex)
 //@   at entry: inst scopeIndex
 
